@@ -77,6 +77,11 @@ SIG = {
                              [('OPS', 'List (String × Bytes)'), ('self_version', 'Bytes'), ('self_inputs', 'List Py.PyTxIn'),
                               ('self_outputs', 'List Py.PyTxOut'), ('self_witnesses', 'List Py.PyWit'), ('self_locktime', 'Bytes'),
                               ('has_segwit', 'Bool')], 'Bytes'),
+    # BIP143 digest
+    'segwit_digest': ('transactions.py', 'Transaction.get_transaction_segwit_digest',
+                      [('hashlib_sha256', 'Bytes → Bytes'), ('OPS', 'List (String × Bytes)'), ('self_version', 'Bytes'),
+                       ('self_inputs', 'List Py.PyTxIn'), ('self_outputs', 'List Py.PyTxOut'), ('self_locktime', 'Bytes'),
+                       ('txin_index', 'Int'), ('script', 'List Py.PyTok'), ('amount', 'Int'), ('sighash', 'Int')], 'Bytes'),
     # the rest of the bundled RIPEMD-160
     'rmd_compress': ('ripemd160.py', 'compress',
                      [('h0', 'Int'), ('h1', 'Int'), ('h2', 'Int'), ('h3', 'Int'), ('h4', 'Int'), ('block', 'Bytes')],
@@ -110,6 +115,8 @@ SCH_CALLS = {'tagged_hash': ('schnorr_tagged_hash', True), 'bytes_from_int': ('s
 SCH_BYTES = {'tagged_hash', 'bytes_from_int', 'bytes_from_point', 'xor_bytes'}
 POINT = 'Option (Int × Int)'
 # record types: field order of the call `<obj>.to_bytes()` on a loop variable
+REC_TYPE = {'txinput_to_bytes': 'Py.PyTxIn', 'txoutput_to_bytes': 'Py.PyTxOut', 'txwitness_to_bytes': 'Py.PyWit'}
+TOK_FIELDS = {'script_pubkey', 'script_sig'}
 RECORDS = {'List Py.PyTxIn': ('txinput_to_bytes', True, ['txid', 'txout_index', 'script_sig', 'sequence']),
            'List Py.PyTxOut': ('txoutput_to_bytes', True, ['amount', 'script_pubkey']),
            'List Py.PyWit': ('txwitness_to_bytes', False, ['stack'])}
@@ -154,6 +161,7 @@ class Tr:
     def __init__(s, name, file=None):
         s.name = name; s.tmp = 0; s.pre = []; s.declared = set(); s.points = set(); s.tuple5 = set()
         s.toklists = set(); s.tokvars = set(); s.optables = set(); s.byteslists = set(); s.reclists = {}; s.recvars = {}; s.revtables = set()
+        s.hoisted = set()
         s.fconsts = FILE_CONSTS.get(file, {})
 
     def fail(s, n, why):
@@ -275,6 +283,9 @@ class Tr:
             # self.script_sig.script[k] as hex data (it only flows into h_to_b)
             t = s.eff(f'Py.tokIndex self_{n.value.value.attr} ({n.slice.value} : Int)')
             return s.eff(f'Py.tokData {t}')
+        if (isinstance(n, ast.Subscript) and isinstance(n.value, ast.Attribute) and isinstance(n.value.value, ast.Name)
+                and n.value.value.id == 'self' and 'self_' + n.value.attr in s.reclists and not isinstance(n.slice, ast.Slice)):
+            return s.eff(f'Py.listGet self_{n.value.attr} {s.e(n.slice)}')
         if isinstance(n, ast.Subscript) and isinstance(n.value, ast.Name) and n.value.id == 'OP_CODES' and 'OPS' in s.optables:
             k = n.slice
             if isinstance(k, ast.Name) and k.id in s.tokvars: return s.eff(f'Py.tokLookup OPS {k.id}')
@@ -315,6 +326,13 @@ class Tr:
             if n.id in s.bytesvars: s.fail(n, 'iteration over bytes')
             return n.id
         s.fail(n, 'iterable')
+
+    def recsub(s, n):
+        """`self.<record list>[i]` -> the name of the record-list parameter"""
+        if (isinstance(n, ast.Subscript) and isinstance(n.value, ast.Attribute) and isinstance(n.value.value, ast.Name)
+                and n.value.value.id == 'self' and 'self_' + n.value.attr in s.reclists and not isinstance(n.slice, ast.Slice)):
+            return 'self_' + n.value.attr
+        return None
 
     def ispoint(s, n):
         if isinstance(n, ast.Name): return n.id in s.points or (n.id not in s.declared and s.fconsts.get(n.id, '').startswith('(some'))
@@ -451,6 +469,9 @@ class Tr:
                 return s.eff(f'script_to_bytes OPS {f.value.id}')                  # script.to_bytes() on a Script argument
             if f.attr == 'encode' and isinstance(f.value, ast.Name) and f.value.id in s.bytesvars and len(args) <= 1:
                 return f.value.id       # str.encode("utf-8") of a str modelled by its UTF-8 bytes
+            if (f.attr == 'to_bytes' and not args and isinstance(f.value, ast.Attribute) and isinstance(f.value.value, ast.Name)
+                    and f.value.value.id in s.recvars and f.value.attr in TOK_FIELDS and f.value.attr in s.recvars[f.value.value.id][2]):
+                return s.eff(f'script_to_bytes OPS {f.value.value.id}.{f.value.attr}')     # txout.script_pubkey.to_bytes()
             if f.attr == 'to_bytes' and not args and isinstance(f.value, ast.Name) and f.value.id in s.recvars:
                 fn_, ops, fields = s.recvars[f.value.id]
                 return s.eff(f'{fn_} ' + ('OPS ' if ops else '') + ' '.join(f'{f.value.id}.{x}' for x in fields))
@@ -542,6 +563,8 @@ class Tr:
                 return [f'{ind}{kw}{tg.id} := ([] : List Py.PyTok)']
             k = s.kind(st.value)
             v = s.e(st.value); name = tg.id
+            rl = s.recsub(st.value)
+            if rl is not None: s.recvars[name] = s.reclists[rl]
             if (isinstance(st.value, ast.Tuple) and len(st.value.elts) == 5) or \
                     (isinstance(st.value, ast.Call) and isinstance(st.value.func, ast.Name) and st.value.func.id == 'compress'):
                 s.tuple5.add(name)
@@ -585,6 +608,15 @@ class Tr:
                 if used: head.append(f'{ind}  let {v} : Int := Int.ofNat {v}_')
                 return pre + head + s.block(st.body, ind + '  ')
             it = s.iter(st.iter); pre = s.flush(ind)
+            if it in s.reclists:
+                # a record loop variable is a binder of the loop only (the name may be re-used for an assignment later)
+                s.recvars[v] = s.reclists[it]
+                body = s.block(st.body, ind + '  ')
+                if v not in s.hoisted: s.declared.discard(v)
+                # Python binds the loop variable in function scope: a name that is also assigned elsewhere in a branch was declared
+                # mutable up front and is assigned here; otherwise it is a binder of the loop body
+                bind = f'{ind}  {v} := {v}_it' if v in s.hoisted else f'{ind}  let {v} := {v}_it'
+                return pre + [f'{ind}for {v}_it in {it} do', bind] + body
             if it in s.toklists: s.tokvars.add(v)
             if it in s.byteslists: s.bytesvars.add(v)
             if it in s.reclists: s.recvars[v] = s.reclists[it]
@@ -621,6 +653,11 @@ class Tr:
         for st in ast.walk(node):
             if isinstance(st, ast.Assign) and len(st.targets) == 1 and isinstance(st.targets[0], ast.Name):
                 nm = st.targets[0].id
+                rl = s.recsub(st.value)
+                if nm not in top and nm not in s.declared and rl is not None:
+                    out.append(f'  let mut {nm} : {REC_TYPE[s.reclists[rl][0]]} := default')
+                    s.declared.add(nm); s.recvars[nm] = s.reclists[rl]; s.hoisted.add(nm)
+                    continue
                 if nm not in top and nm not in s.declared:
                     k = s.kind(st.value)
                     if s.isbool(st.value): k = 'bool'; s.boolvars.add(nm)
@@ -787,6 +824,8 @@ def main():
         for k in ('TYPE_ABSOLUTE_TIMELOCK', 'TYPE_RELATIVE_TIMELOCK', 'TYPE_REPLACE_BY_FEE'):
             CONSTS[k] = f'({getattr(consts, k)} : Int)'
         CONSTS['LEAF_VERSION_TAPSCRIPT'] = f'({consts.LEAF_VERSION_TAPSCRIPT} : Int)'
+        for k in ('SIGHASH_ALL', 'SIGHASH_NONE', 'SIGHASH_SINGLE', 'SIGHASH_ANYONECANPAY', 'TAPROOT_SIGHASH_ALL'):
+            CONSTS[k] = f'({getattr(consts, k)} : Int)'
         for k in ('ABSOLUTE_TIMELOCK_SEQUENCE', 'REPLACE_BY_FEE_SEQUENCE'):
             CONSTS[k] = blit(getattr(consts, k))
         b32 = mods['bech32']
